@@ -479,6 +479,13 @@ def configs(tier, seed):
                              "adapters": "none", "stager": "default", "init_form": "state",
                              "storages": ["memmap_tmp", "memmap_dir"],
                              "processes": [2] if n_warm == 0 else [], "seed": seed})
+    # one chain on a pool of several processes (and on 'all CPUs')
+    for sampler in ("generic", "static"):
+        for procs in ([2], [None]):
+            cfgs.append({"sampler": sampler, "n_chain": 1, "n_warm": 0, "n_main": 3,
+                         "trace_warm_up": False, "trace_set": "pos", "monitor": False,
+                         "adapters": "none", "stager": "default", "init_form": "state",
+                         "storages": [], "processes": procs, "seed": seed})
     # the documented 'use all CPUs' setting
     for sampler in ("generic", "static"):
         cfgs.append({"sampler": sampler, "n_chain": 2, "n_warm": 0, "n_main": 2,
